@@ -355,6 +355,8 @@ func runC02Bindings(c *core.Ctx, s *world.Schema, g0 *world.Graph, report func(p
 	for _, p := range permutations(2) {
 		ra := []world.Arg{{Name: "x", Value: "X"}, {Name: "y", Value: "Y"}}
 		revDocs = append(revDocs, world.Q(world.F("rev").WithArgs(ra[p[0]], ra[p[1]]), world.F("a", world.F("rev").WithArgs(ra[p[0]], ra[p[1]]))))
+		// the same under the interface: the selection is on Named, the method and its registered order are the object's
+		revDocs = append(revDocs, world.Q(world.F("named", world.F("rev").WithArgs(ra[p[0]], ra[p[1]])), world.F("nameds", world.F("rev").WithArgs(ra[p[0]], ra[p[1]]), world.F("name"))))
 	}
 	type mode struct {
 		name string
